@@ -3,6 +3,7 @@
 package c14
 
 import (
+	"bytes"
 	"encoding/binary"
 	"fmt"
 	"os"
@@ -163,7 +164,120 @@ func previewFile(rt *rapid.T) ([]byte, string) {
 	return out, fmt.Sprintf("prvw-stated-%d-have-%d", stated, jpegLen)
 }
 
+// manySmall: files made of very many tiny structures, each of which may trigger a fixed-size or
+// count-sized allocation: the total must still be bounded by the file size.
+func manySmall(rt *rapid.T) ([]byte, string, string) {
+	n := rapid.SampledFrom([]int{2, 8, 32, 200, 2000, 20000}).Draw(rt, "copies")
+	kind := rapid.SampledFrom([]string{"preview-boxes", "iloc-boxes", "cmt-boxes", "xpacket-boxes"}).Draw(rt, "what")
+	var kids []*gen.Box
+	for i := 0; i < n; i++ {
+		switch kind {
+		case "preview-boxes":
+			f := make([]byte, 16)
+			binary.BigEndian.PutUint16(f[4:], 1)
+			binary.BigEndian.PutUint32(f[12:], uint32(rapid.SampledFrom([]int{0, 2048, 1 << 20}).Draw(rt, "psz")))
+			kids = append(kids, &gen.Box{Type: "uuid", Data: append(append([]byte{}, gen.UUIDPreview...), 0, 0, 0, 0, 0, 0, 0, 1), Kids: []*gen.Box{{Type: "PRVW", Data: f}}})
+		case "iloc-boxes":
+			d := []byte{0x44, 0x00, 0xFF, 0xFF} // offset/length size 4, item_count 0xFFFF, no entries
+			kids = append(kids, &gen.Box{Type: "iloc", Full: true, Data: d})
+		case "cmt-boxes":
+			kids = append(kids, &gen.Box{Type: "CMT1", Data: []byte("II*\x00\x08\x00\x00\x00\x00\x00\x00\x00\x00\x00\x00\x00")})
+		default:
+			kids = append(kids, &gen.Box{Type: "uuid", Data: append(append([]byte{}, gen.UUIDXPacket...), []byte("<x:xmpmeta xmlns:x=\"adobe:ns:meta/\"/>")...)})
+		}
+	}
+	var top []*gen.Box
+	brand := "crx "
+	switch kind {
+	case "iloc-boxes":
+		brand = "avif"
+		top = []*gen.Box{{Type: "meta", Full: true, Kids: kids}}
+	case "cmt-boxes":
+		top = []*gen.Box{{Type: "moov", Kids: []*gen.Box{{Type: "uuid", Data: append([]byte{}, gen.UUIDCanon...), Kids: kids}}}}
+	default:
+		if rapid.Bool().Draw(rt, "insideMoov") {
+			top = []*gen.Box{{Type: "moov", Kids: kids}}
+		} else {
+			top = kids
+		}
+	}
+	out := gen.Ftyp(brand, 1, brand, "mif1").Serialise(0)
+	for _, b := range top {
+		out = append(out, b.Serialise(len(out))...)
+	}
+	out = append(out, (&gen.Box{Type: "mdat", Data: make([]byte, 64)}).Serialise(len(out))...)
+	return out, fmt.Sprintf("%d-%s", n, kind), kind
+}
+
+// lyingChain: an Exif block inside boxes that all declare far more than the file holds (CR3 CMTn, HEIF
+// Exif item), with out-of-line tags whose unit counts are huge: every length the Exif reader could
+// check a value against is a lie, only the bytes actually present are real.
+func lyingChain(rt *rapid.T) ([]byte, string, string) {
+	mm := rapid.Bool().Draw(rt, "mm")
+	bo := binary.AppendByteOrder(binary.LittleEndian)
+	hdr := []byte("II*\x00\x08\x00\x00\x00")
+	if mm {
+		bo = binary.BigEndian
+		hdr = []byte("MM\x00*\x00\x00\x00\x08")
+	}
+	which := rapid.IntRange(0, 3).Draw(rt, "cmt")
+	ids := [][]uint16{{0x010e, 0x010f, 0x0110, 0x013b, 0x8298, 0x0131}, {0x9286, 0xa434, 0xa433, 0x9003, 0x829a, 0x8827}, {0x0006, 0x0007, 0x0095, 0x0096, 0x0001, 0x4019}, {0x0001, 0x0002, 0x0007, 0x001d}}[which]
+	n := rapid.IntRange(1, 4).Draw(rt, "entries")
+	tiff := append([]byte{}, hdr...)
+	tiff = bo.AppendUint16(tiff, uint16(n))
+	after := uint32(8 + 2 + 12*n + 4)
+	var desc []string
+	for i := 0; i < n; i++ {
+		id := ids[rapid.IntRange(0, len(ids)-1).Draw(rt, "tag")]
+		typ := rapid.SampledFrom([]uint16{2, 2, 7, 1, 3, 4, 5, 10}).Draw(rt, "type")
+		cnt := rapid.SampledFrom([]uint32{0x10000000, 0x00400000, 0x003fff00, 0x01000000, 0x7fffffff, 0xffffffff, 70000, 5000}).Draw(rt, "count")
+		off := after + uint32(rapid.IntRange(0, 64).Draw(rt, "voff"))
+		tiff = bo.AppendUint16(tiff, id)
+		tiff = bo.AppendUint16(tiff, typ)
+		tiff = bo.AppendUint32(tiff, cnt)
+		tiff = bo.AppendUint32(tiff, off)
+		desc = append(desc, fmt.Sprintf("%04x/t%d/n%d", id, typ, cnt))
+	}
+	tiff = bo.AppendUint32(tiff, 0)
+	tiff = append(tiff, rapid.SliceOfN(rapid.Byte(), 0, 200).Draw(rt, "present")...)
+	lie := int64(rapid.SampledFrom([]uint32{0x7fff0000, 0x10000000, 0x02000000, 0x00500000}).Draw(rt, "lie"))
+	var out []byte
+	kind := "cr3"
+	if rapid.IntRange(0, 3).Draw(rt, "heif?") == 0 {
+		kind = "heif"
+		full := gen.HEIFWith(rt, tiff)
+		// cut the file right after the TIFF block, then enlarge the extent length and the mdat size
+		at := bytes.Index(full, tiff)
+		out = append([]byte{}, full[:at+len(tiff)]...)
+		if i := bytes.Index(out, []byte("iloc")); i >= 0 && i+4+4+14+4 <= len(out) {
+			binary.BigEndian.PutUint32(out[i+4+4+14:], uint32(lie))
+		}
+		if i := bytes.LastIndex(out[:at], []byte("mdat")); i >= 4 {
+			binary.BigEndian.PutUint32(out[i-4:], uint32(lie))
+		}
+	} else {
+		cmt := &gen.Box{Type: fmt.Sprintf("CMT%d", which+1), Data: tiff, Overstate: lie}
+		canon := &gen.Box{Type: "uuid", Data: append([]byte{}, gen.UUIDCanon...), Kids: []*gen.Box{cmt}, Overstate: lie}
+		moov := &gen.Box{Type: "moov", Kids: []*gen.Box{canon}, Overstate: lie}
+		out = gen.Ftyp("crx ", 1, "crx ", "isom").Serialise(0)
+		out = append(out, moov.Serialise(len(out))...)
+	}
+	return out, fmt.Sprintf("%s lie=%d %v", kind, lie, desc), kind
+}
+
 func genCase(rt *rapid.T) Case {
+	if gen.Chance(rt, "lyingchain?", 0.08) {
+		data, origin, kind := lyingChain(rt)
+		entries := []string{"DecodeCR3", "Decode", "BMFF"}
+		if kind == "heif" {
+			entries = []string{"DecodeHeif", "Decode", "BMFF"}
+		}
+		return Case{Entry: rapid.SampledFrom(entries).Draw(rt, "entry"), Input: data, K: 4, Origin: "lying-box-chain", Ops: []string{origin}, Big: true}
+	}
+	if gen.Chance(rt, "manysmall?", 0.08) {
+		data, origin, _ := manySmall(rt)
+		return Case{Entry: rapid.SampledFrom([]string{"PreviewCR3", "BMFF", "Decode", "DecodeCR3"}).Draw(rt, "entry"), Input: data, K: 25000, Origin: "many-small-boxes", Ops: []string{origin}, Big: true}
+	}
 	if gen.Chance(rt, "preview?", 0.12) {
 		data, origin := previewFile(rt)
 		return Case{Entry: rapid.SampledFrom([]string{"PreviewCR3", "PreviewCR3", "BMFF", "Decode"}).Draw(rt, "entry"), Input: data, K: 4, Origin: "cr3-preview", Ops: []string{origin}, Big: true}
@@ -206,7 +320,7 @@ func init() { pbt.Register(chk) }
 
 func TestProp(t *testing.T) {
 	defer rec.MustWrite()
-	rec.Rule("inputs: repository samples and encoder output in every container with 1-3 count / size / length fields (IFD entry counts and unit counts, value offsets, box sizes incl. 64-bit, JPEG segment lengths, PNG chunk lengths, iloc / infe fields) overwritten by 2^24..2^32-1 or len(b)+-1 in either byte order, C01's hostile edits, and camera-layout CR3 files whose PRVW box states a preview size unrelated to the bytes present, or honestly holds a preview of up to 400 KB; every entry point incl. PreviewCR3. " +
+	rec.Rule("inputs: repository samples and encoder output in every container with 1-3 count / size / length fields (IFD entry counts and unit counts, value offsets, box sizes incl. 64-bit, JPEG segment lengths, PNG chunk lengths, iloc / infe fields) overwritten by 2^24..2^32-1 or len(b)+-1 in either byte order, C01's hostile edits, and camera-layout CR3 files whose PRVW box states a preview size unrelated to the bytes present, or honestly holds a preview of up to 400 KB, Exif blocks inside CR3/HEIF boxes that all declare up to 2 GiB while the file ends after the IFD, with out-of-line tags of huge unit counts; and files made of 2..20000 copies of one tiny box (preview uuid+PRVW, iloc with item_count 0xFFFF, CMT1, xpacket); every entry point incl. PreviewCR3. " +
 		"Each call runs in an isolated worker (GOMAXPROCS=1, 8 GiB address-space limit) after one warming call of the same entry point; oracle: runtime.MemStats.TotalAlloc delta around the call <= 4 MiB + 16 x len(b); an out-of-memory death or a makeslice panic counts as a violation. " +
 		"non-trivial = the input carries >= 1 overwritten size/count field and the decode got past type identification; distinct by (entry, input)")
 	rec.Assume("TotalAlloc counts every heap allocation of the process during the call; the worker runs one request at a time")
